@@ -145,7 +145,7 @@ func (b *faultyBootstrap) Cwd() (string, error) {
 	return b.Bootstrap.Cwd()
 }
 func (b *faultyBootstrap) Env(e *env.Environment) map[string]string { return b.Bootstrap.Env(e) }
-func (b *faultyBootstrap) ExtraFiles() []*os.File                     { return b.Bootstrap.ExtraFiles() }
+func (b *faultyBootstrap) ExtraFiles() []*os.File                   { return b.Bootstrap.ExtraFiles() }
 func (b *faultyBootstrap) CachedFatalError(err error) (fatalerror.ErrorType, string, bool) {
 	return b.Bootstrap.CachedFatalError(err)
 }
